@@ -170,6 +170,21 @@ def differential(
             return {"export_error": None, "model": model, "env_limit": str(exc), "results": [], "obs": obs}
         except ortrun.OrtLoadError as exc:
             return {"export_error": None, "model": model, "load_error": str(exc), "results": [], "obs": obs}
+    rnd = registry.randomness(model)
+    if rnd == "random":
+        return {"export_error": None, "model": model, "random": True, "results": [], "obs": obs}
+    if rnd == "maybe":
+        for cls, xs, ref, rng in admitted:
+            if ref is None:
+                continue
+            try:
+                feed = ortrun.build_feed(sess, ort_feeds_for(prog, xs), prog.params)
+                a, b = ortrun.run(sess, feed), ortrun.run(sess, feed)
+                if any(x.shape != y.shape or not np.array_equal(x, y, equal_nan=True) for x, y in zip(a, b)):
+                    return {"export_error": None, "model": model, "random": True, "results": [], "obs": obs}
+            except Exception:  # noqa: BLE001
+                pass
+            break
     for cls, xs, ref, rng in admitted:
         if ref is None:
             results.append(DrawResult(cls, "not_admitted", xs=xs))
